@@ -290,7 +290,7 @@ func (w *World) Tick() { setClock(getClock() + 1) }
 
 // Get fetches a typed object from the store without counting as an API call.
 func (w *World) Get(obj client.Object, ns, name string) bool {
-	return w.Raw.Get(context.TODO(), client.ObjectKey{Namespace: ns, Name: name}, obj) == nil
+	return w.fastGetInto(obj, ns, name)
 }
 
 // As runs f with the store's actor set (writes are attributed to actor) and dispatches events afterwards.
